@@ -76,6 +76,7 @@ func classOf(res *drummer.VerifSchedResult) map[uint64]*classes {
 }
 
 type Judge struct {
+	Draws             []uint64 // the scripted draws of this round (launch: to follow the planner)
 	Run *hx.Run
 	Seq int
 	Idx int
@@ -111,6 +112,54 @@ func (j *Judge) Launch(c *Context, res *drummer.VerifSchedResult, exhausted bool
 		for _, n := range c.Regions.Count {
 			if n > 1<<32 {
 				j.fail("C08", "launch_total", "launch-runs-away-on-huge-count", fmt.Sprintf("a region count of %d (beyond any shard size; negative as a signed integer) was not refused: the planner kept drawing hosts until the scripted random source ran dry", n))
+				return
+			}
+		}
+	}
+	if res.Panic != "" && exhausted && c.Regions != nil && len(c.Regions.Region) == len(c.Regions.Count) {
+		// running out of draws is inconclusive only while the planner is sampling for an entry that can be satisfied. Follow the
+		// planner through the shards in its own order: an entry with fewer suitable hosts than its count is given up without a
+		// draw, any other entry takes draws until `count` distinct hosts are hit. A shard with an entry that cannot be satisfied
+		// has to be refused when its entries are done; if the scripted draws last that far, running dry means the planner never
+		// stops drawing for a placement that does not exist.
+		pos := 0
+		for _, sid := range res.ShardsOrder {
+			def := c.Shards[sid]
+			if def == nil {
+				break
+			}
+			short := ""
+			for i, reg := range c.Regions.Region {
+				cnt := c.Regions.Count[i]
+				if cnt > uint64(len(def.Members)) {
+					short = fmt.Sprintf("region %s wants %d of %d members", reg, cnt, len(def.Members))
+					break
+				}
+				n := uint64(0)
+				for _, h := range c.NodeHostImage.Nodehosts {
+					if h.Region == reg && c.live(h) && !hosts(h, sid) {
+						n++
+					}
+				}
+				if n < cnt {
+					short = fmt.Sprintf("region %s has %d suitable NodeHosts for %d members", reg, n, cnt)
+					continue
+				}
+				hit := map[uint64]bool{}
+				for uint64(len(hit)) < cnt && pos < len(j.Draws) {
+					hit[j.Draws[pos]%n] = true
+					pos++
+				}
+				if uint64(len(hit)) < cnt {
+					pos = len(j.Draws) + 1 // ran dry while sampling for a satisfiable entry: inconclusive
+					break
+				}
+			}
+			if pos > len(j.Draws) {
+				break
+			}
+			if short != "" {
+				j.fail("C08", "launch_total", "launch-runs-away-when-unplaceable", fmt.Sprintf("shard %d cannot be placed (%s) and the scripted draws (%d of %d used by then) last until the planner has to refuse: it kept drawing hosts until the random source ran dry instead", sid, short, pos, len(j.Draws)))
 				return
 			}
 		}
